@@ -156,7 +156,9 @@ def presented (a : AdfSt) (perm order : List Nat) : String × String :=
   let co := if n ≤ 7 then showSetC (Spec.completeAll n tts) else setOf (completeAll orig.1 n orig.2).2.2
   let sb := if n ≤ 7 then showSetC (Spec.stableAll n tts) else setOf (stableAll orig.1 n orig.2).2
   let m2 := if n ≤ 7 then showSetC (Spec.models2 n tts) else setOf (SM.ngSearch .simple 2000000 orig.1 n orig.2 false).2.1
-  (eq, s!"grounded={gr} complete={co} stable={sb} twoval={m2} biogrounded={gr} biocomplete={co} biostable={sb} biorew={sb} biorew2={sb} natrew={sb} hybpre={sb}")
+  -- beyond 64 statements the harness does not run the single-formula rewriting variants (resource blow-up)
+  let rw := if n > 64 then "wide" else sb
+  (eq, s!"grounded={gr} complete={co} stable={sb} twoval={m2} biogrounded={gr} biocomplete={co} biostable={sb} biorew={rw} biorew2={rw} natrew={rw} hybpre={sb}")
 
 def orderCheck (n : Nat) (sort : String) (perm : List Nat) (labels : List String) (order : List Nat) : String :=
   if order.length != n || !(List.range n).all (fun i => order.contains i) then "violated not-a-permutation"
